@@ -24,16 +24,18 @@ IP_ALPHA = ["S1.0", "S1025.0", "N", "R0", "F1", "C", "X", "T", "D", "RC", "O0", 
 # IP read segmentation: one TCP read = k complete frames + a prefix of the next (1 byte, 2 bytes, 10 bytes, all but
 # the last byte of the tag), the rest in a second read; replays / corrupted frames glued behind complete frames
 IP_SEG = ["S1.0", "N", "R0", "N@1", "N+N", "N+N@1", "N+N@2", "N+N@10", "N+N@-1", "N+R0@10", "N+C@2", "N+N+N@2"]
-BLE_ALPHA = ["S1.0", "S30.1", "N", "R0", "F1", "C", "X", "T", "D", "RC", "RD", "O0"]
+BLE_ALPHA = ["S1.0", "S30.1", "N", "R0", "F1", "C", "X", "T", "D", "RC", "RD", "RR", "O0"]
 COAP_ALPHA = ["S1.0", "N", "R0", "F1", "C", "X", "T", "RC", "EN", "ER0", "EC"]
 ALPHA = {"ip": IP_ALPHA, "ble": BLE_ALPHA, "coap": COAP_ALPHA}
 # the 7-symbol core used for the deepest level of each sweep
 CORE = {"ip": ["S1.0", "N", "R0", "F1", "C", "X", "RC"],
         "ble": ["S30.1", "N", "R0", "F1", "C", "X", "RC"],
         "coap": ["S1.0", "N", "R0", "F1", "C", "X", "T"]}
-COAP_EVT = ["EN", "EM", "EU", "EL0", "EL1", "ER0", "ER1", "EC", "EF1"]     # event channel incl. processing failures
+COAP_EVT = ["EN", "EU", "EL0", "EL1", "ER0", "ER1", "EC"]     # event channel incl. processing failures
 # BLE GATT faults: write of fragment j refused with the link staying up (W) / dropping (V), read errors (T, TB, D)
-BLE_FAULT = ["S1.0", "S30.1", "N", "W1.0.0", "W30.1.0", "W30.1.1", "V30.1.0", "V30.1.1", "TB", "T", "D", "RC", "X"]
+# CoAP subscriptions on ONE live session: subscribe / unsubscribe-everything (each with its response), events, replays
+COAP_SUBS = ["SUB+N", "UNS+N", "EN", "ER0", "ER1", "EC", "SUB"]
+BLE_FAULT = ["S1.0", "S30.1", "N", "W1.0.0", "W30.1.0", "W30.1.1", "V30.1.0", "TB", "D", "RC", "X"]
 
 
 def parse_ev(t):
@@ -41,7 +43,7 @@ def parse_ev(t):
         # glued delivery (read segmentation): sub-events joined by "+", "@c" = the read is cut c bytes into the last frame
         body, _, cut = t.partition("@")
         return ("G", [parse_ev(x) for x in body.split("+")], int(cut) if cut else 0)
-    if t in ("N", "C", "X", "T", "TB", "D", "RC", "RD", "EN", "EC", "EM", "EU"):
+    if t in ("N", "C", "X", "T", "TB", "D", "RC", "RD", "RR", "SUB", "UNS", "EN", "EC", "EM", "EU"):
         return (t, 0, 0)
     if t.startswith("EL"):
         return ("EL", int(t[2:]), 0)
@@ -65,7 +67,19 @@ def model_tokens(h):
     out = []
     for t in h:
         out += t.partition("@")[0].split("+") if ("+" in t or "@" in t) else [t]
-    return [MODEL_TOKEN(t) for t in out]
+    res, subscribed = [], False
+    for t in out:
+        if t == "SUB":
+            # CoAPPairing.subscribe sends a request only for characteristics it is not subscribed to yet
+            if not subscribed:
+                res.append("S1.0")
+            subscribed = True
+        elif t == "UNS":
+            subscribed = False
+            res.append("S1.0")           # CoAPPairing.unsubscribe always sends the request
+        else:
+            res.append(MODEL_TOKEN(t))
+    return res
 
 
 def MODEL_TOKEN(t):
@@ -75,6 +89,8 @@ def MODEL_TOKEN(t):
     does not touch the counters in the model: the datagram was accepted."""
     if t == "TB":
         return "T"
+    if t == "RR":
+        return "D"        # BLE: reconnect against a replaying peer = the link dropped and no session came up
     if t[0] == "V":
         return "W" + t[1:]
     if t in ("EM", "EU") or t.startswith("EL"):
@@ -636,6 +652,11 @@ class BleRun:
         self.pv_buf = None
         self.pv_reply = b""
         self.new_secret = None
+        self.replay_hs = None    # not None: the peer is an attacker replaying a recorded handshake
+        self.hs_cur = []
+        self.recorded = None     # (accessory replies of the last full pair-verify, accessory epoch of that session)
+        self.caches = {}
+        self.n_acc = 0
         self.sessions = []       # how each session came about: "full" / "resume"
         self.step(("RC", 0, 0))
 
@@ -655,7 +676,12 @@ class BleRun:
             self.pv_buf += data[2:]
         if len(self.pv_buf) >= self.pv_total:
             body = dict(ref_decode(self.pv_buf[:self.pv_total]) or [])
-            reply, secret = self.acc.handle(body.get(1, b""))
+            if self.replay_hs is not None:
+                # a peer that only plays back the accessory's side of a recorded full pair-verify (M2, M4)
+                reply, secret = (self.replay_hs.pop(0) if self.replay_hs else ref_encode([(6, b"\x02"), (7, b"\x02")])), None
+            else:
+                reply, secret = self.acc.handle(body.get(1, b""))
+                self.hs_cur.append(reply)
             if secret is not None:
                 self.new_secret = secret
             out = ref_encode([(1, reply)])
@@ -693,12 +719,8 @@ class BleRun:
         self.reads_done += 1
         self.client.read_waiter.set_result(bytearray(data))
 
-    def reconnect(self, decline):
-        from ref.c06acc import session_keys
+    def _populate(self, tolerate=False):
         bp = self.bp
-        if decline:
-            self.acc.forget()
-        self.new_secret = None
         saved = bp.establish_connection
         bp.establish_connection = self._establish
         try:
@@ -708,20 +730,61 @@ class BleRun:
                 t.cancel()
                 settle(self.loop)
                 raise RuntimeError("BLE reconnect did not complete")
-            t.result()
+            if tolerate:
+                t.exception()
+            else:
+                t.result()
         finally:
             bp.establish_connection = saved
+
+    def reconnect(self, decline):
+        from ref.c06acc import session_keys
+        if decline:
+            self.acc.forget()
+        self.new_secret = None
+        self.hs_cur = []
+        self._populate()
         if self.new_secret is not None:
             # the accessory starts a new session with the keys IT derived
             c2a, a2c = session_keys(self.new_secret)
-            self.acc_epoch += 1
+            self.acc_epoch = self.n_acc
+            self.n_acc += 1
             self.acc_keys[self.acc_epoch] = aead(a2c)
             self.old_cache, self.cache = self.cache, {}
+            self.caches[self.acc_epoch] = self.cache
             self.srv = 0
             self.sessions.append(self.acc.last)
+            if self.acc.last == "full":
+                self.recorded = (list(self.hs_cur), self.acc_epoch)
         cur = TRACE.current.get("c")
         if cur is not None:
             self.epoch = TRACE.keys[cur][0]
+
+    def replayed_reconnect(self):
+        """'RR': the link drops, and on the next connection an on-path attacker answers the pair-verify with the
+        accessory's recorded M2/M4 of an earlier full verify.  The controller's ephemeral key is fresh, so the
+        unchanged code rejects the recorded M2 and no session comes up (the link is dropped again): the event is
+        the model's Disconnect.  If a session does come up it can only have the recorded session's keys; the
+        attacker then continues with that session's recorded frames."""
+        self.step(("D", 0, 0))
+        if self.recorded is None:
+            return
+        self.replay_hs = list(self.recorded[0])
+        try:
+            self._populate(tolerate=True)
+        finally:
+            self.replay_hs = None
+        if self.pairing._encryption_key is None:
+            if self.client is not None and self.client.is_connected:
+                self.client.drop()
+        else:
+            self.sessions.append("replayed")
+            self.acc_epoch = self.recorded[1]
+            self.cache = self.caches[self.acc_epoch]
+            self.srv = 0
+            cur = TRACE.current.get("c")
+            if cur is not None:
+                self.epoch = TRACE.keys[cur][0]
 
     def step(self, ev):
         from bleak.exc import BleakError
@@ -773,6 +836,8 @@ class BleRun:
                     w.set_exception(BleakError("disconnected"))
         elif k in ("RC", "RD"):
             self.reconnect(decline=(k == "RD"))
+        elif k == "RR":
+            self.replayed_reconnect()
         settle(self.loop)
         self.reqs.collect()
 
@@ -824,6 +889,7 @@ class CoapRun:
         self.cache = {}
         self.old_cache = {}
         self.got_events = []
+        self.pairing = None
         self.new_session()
 
     def new_session(self):
@@ -833,9 +899,22 @@ class CoapRun:
         self.acc[e] = (aead(ka), aead(ke))
         self.stub = StubCoap(self)
         self.ctx = self.cc.EncryptionContext(LoggedAead(ka), LoggedAead(kc), LoggedAead(ke), "coap://[fe80::1]:5683/", self.stub)
-        owner = types.SimpleNamespace(event_received=self._listener)
-        info = types.SimpleNamespace(find_characteristic_by_iid=lambda iid: None)
-        self.conn = types.SimpleNamespace(enc_ctx=self.ctx, owner=owner, info=info)
+        if self.pairing is None:
+            # a real CoAPHomeKitConnection owned by a real CoAPPairing object (built without its constructor: no
+            # controller / zeroconf), so that subscribe / unsubscribe run CoAPPairing.subscribe -> AbstractPairing.subscribe
+            # -> CoAPHomeKitConnection.subscribe_to -> EncryptionContext.post_all on the live session
+            import aiohomekit.controller.coap.pairing as cp
+
+            async def connected():
+                return None
+            self.pairing = object.__new__(cp.CoAPPairing)
+            self.pairing.subscriptions = set()
+            self.pairing._ensure_connected = connected
+            self.pairing.event_received = self._listener
+            self.conn = self.cc.CoAPHomeKitConnection(self.pairing, "fe80::1", 5683)
+            self.conn.info = types.SimpleNamespace(find_characteristic_by_iid=lambda iid: None)
+            self.pairing.connection = self.conn
+        self.conn.enc_ctx = self.ctx          # what do_pair_verify installs
         self.res = self.cc.EventResource(self.conn)
         self.srv = self.esrv = 0
         self.old_cache, self.cache = self.cache, {}
@@ -853,7 +932,8 @@ class CoapRun:
     def frame(self, d, i, kind="EN"):
         if (d, i) not in self.cache:
             if d == "a":
-                pt = b"resp %d.%d" % (self.epoch, i)
+                body = b"%d.%d" % (self.epoch, i)      # a well-formed one-PDU response (tid 0, success), for post_all too
+                pt = struct.pack("<BBBH", 0x02, 0, 0, len(body)) + body
             elif kind == "EN":
                 pt = struct.pack("<BHH", 0, i & 0xFFFF, 0)
             elif kind == "EU":
@@ -891,6 +971,15 @@ class CoapRun:
             return
         if k == "S":
             self.reqs.start(self.epoch, self.ctx.post_bytes(b"z" * max(a, 1)))
+        elif k == "SUB":
+            if (1, 10) not in self.pairing.subscriptions:
+                self.reqs.start(self.epoch, self.pairing.subscribe([(1, 10)]))
+            else:
+                t = self.loop.create_task(self.pairing.subscribe([(1, 10)]))   # nothing new: must not send anything
+                settle(self.loop)
+                t.result()
+        elif k == "UNS":
+            self.reqs.start(self.epoch, self.pairing.unsubscribe([(1, 10)]))
         elif k in ("N", "R", "F", "C", "O"):
             if self.waiting():
                 if k == "C":
@@ -1083,7 +1172,9 @@ def random_histories(transport, r, count, maxlen):
                 if transport == "coap":
                     kinds += ["EN", "ER", "EF", "EC", "R", "F", "R", "EM", "EU", "EL0", "EL1", "ER"]
                 if transport == "ble":
-                    kinds += ["TB", "W", "W", "V"]
+                    kinds += ["TB", "W", "W", "V", "RR"]
+                if transport == "coap":
+                    kinds += ["SUB", "UNS", "SUB+N", "UNS+N"]
                 k = r.choice(kinds)
                 if k == "S":
                     h.append(f"S{r.choice([0, 1, 30, 1024, 1025])}.{r.choice([0, 1])}")
@@ -1112,6 +1203,8 @@ DIRECTED = {
         ["EN", "EN", "ER0", "EC", "ER1", "EN", "EF2", "EN"],
         # event processing fails after the datagram was decrypted (listener raises at the 2nd entry / bad 2nd value)
         ["EL1", "ER0", "EN"], ["EN", "EU", "ER1", "ER1", "EN"], ["EM", "EL0", "ER1", "ER0", "EN", "ER2"],
+        # one session: subscribe, events, unsubscribe everything, subscribe again, replay the recorded events
+        ["SUB", "N", "EN", "EN", "UNS", "N", "SUB", "N", "ER0", "ER1", "EN", "SUB", "UNS", "X", "SUB", "N"],
     ],
     "ip": [
         ["S1025.0", "N", "R0", "S1.0", "RC", "S1.0", "O0"],
@@ -1132,8 +1225,127 @@ DIRECTED = {
         # GATT faults: first / later fragment refused with the link up, then more requests on the same connection
         ["S1.0", "N", "W30.1.0", "S30.1", "N", "N"], ["W30.1.1", "S1.0", "RC", "S1.0", "N"],
         ["S1.0", "V30.1.0", "S1.0", "RC", "S1.0", "N"], ["S30.1", "N", "TB", "S1.0", "RC", "W1.0.0", "S1.0"],
+        # an attacker replays the recorded pair-verify (M2/M4) on the next connection, then recorded frames
+        ["S1.0", "N", "RR", "S1.0", "R0", "RC", "S1.0", "N", "RR", "RD", "S1.0", "N"],
     ],
 }
+
+
+# --------------------------------------------------------------------------- kernel cross-check of the extracted driver
+XCHECK_DIR = {"c": 0, "a": 1, "e": 2}
+XCHECK_CLS = {"ok": 0, "fail": 1, "cancel": 2, "crash": 3}
+XCHECK_RUN = {"ip": "i_log (ip_run ip_init", "ble": "b_log (ble_run ble_init", "coap": "c_log (coap_run coap_init"}
+
+
+def coq_event(t):
+    """One token of a driver request as a Gallina [ev] (same grammar as ocaml/drv_c06.ml ev_of_tok)."""
+    simple = {"N": "Next", "C": "Corrupt", "X": "Cancel", "T": "Timeout", "D": "Disconnect", "RC": "Reconnect",
+              "RD": "Reconnect", "EN": "ENext", "EC": "ECorrupt"}
+    if t in simple:
+        return simple[t]
+    if t.startswith("ER"):
+        return f"EReplay {int(t[2:])}"
+    if t.startswith("EF"):
+        return f"EFuture {int(t[2:])}"
+    if t[0] == "S":
+        n, c = t[1:].split(".")
+        return f"Send {int(n)} {int(c)}"
+    if t[0] == "W":
+        n, c, j = t[1:].split(".")
+        return f"SendW {int(n)} {int(c)} {int(j)}"
+    if t[0] in "ROF":
+        return {"R": "Replay", "O": "ReplayOld", "F": "Future"}[t[0]] + f" {int(t[1:])}"
+    raise ValueError(t)
+
+
+def xcheck_answer(ans):
+    """Driver answer -> 5 flat number lists (seal, wire, open, acc, out); None if it does not have the answer grammar."""
+    try:
+        parts = dict(p.split("=", 1) for p in ans.split(";"))
+        out = []
+        for name in ("seal", "wire", "open", "acc"):
+            flat = []
+            for x in filter(None, parts[name].split(",")):
+                f = x.split(".")
+                flat += [int(f[0]), XCHECK_DIR[f[1]], int(f[2])] + ([int(f[3])] if name == "open" else [])
+                if len(f) != (4 if name == "open" else 3):
+                    return None
+            out.append(flat)
+        flat = []
+        for x in filter(None, parts["out"].split(",")):
+            e, i, c = x.split(".")
+            flat += [int(e), int(i), XCHECK_CLS[c]]
+        out.append(flat)
+        return out if len(parts) == 5 else None
+    except (KeyError, ValueError, IndexError):
+        return None
+
+
+def xcheck_pick(transport, hists, model, n_exh):
+    """Deterministic sample of (request line, driver answer) pairs of one transport: directed / random histories
+    chosen greedily until every event kind that occurs is covered, plus a spread over the exhaustive and random parts.
+    Small inputs preferred: at most 60 events and at most two payload sizes >= 1000 (unary nat in the kernel)."""
+    import re
+
+    def kinds(h):
+        return {re.match(r"[A-Z]+", t).group(0) for t in model_tokens(h)}
+
+    def small(h):
+        return 0 < len(h) <= 60 and len(re.findall(r"\d{4,}", " ".join(h))) <= 2
+
+    picked, covered = [], set()
+    cands = [(i, kinds(hists[i])) for i in range(n_exh, min(len(hists), n_exh + len(DIRECTED[transport]) + 400)) if small(hists[i])]
+    while len(picked) < 4 and cands:
+        i, ks = max(cands, key=lambda c: (len(c[1] - covered), -c[0]))      # greedy set cover, ties: first in the stream
+        if not ks - covered:
+            break
+        covered |= ks
+        picked.append(i)
+    for start in [n_exh * k // 100 for k in (35, 60, 85)] + [n_exh - 1, len(hists) - 2, len(hists) - 1]:
+        # the nearest small history at or before the spread position
+        i = next((j for j in range(start, max(start - 200, -1), -1) if 0 <= j < len(hists) and small(hists[j]) and j not in picked), None)
+        if i is not None:
+            picked.append(i)
+    return [(transport + " " + " ".join(model_tokens(hists[i])), model[i]) for i in picked]
+
+
+def vm_crosscheck(ctx, sample):
+    """Evaluate the sampled requests with vm_compute inside Coq (the same ip_run / ble_run / coap_run on the same
+    event list, all five logs) and compare with what the extracted OCaml driver answered: takes extraction and
+    ocaml/drv*.ml (token parser, printers, sort of the out log) out of the single-point-of-trust position.
+    Returns (requests evaluated, disagreements)."""
+    import re
+    from common import coq_eval
+    body = ["From Coq Require Import List Arith.", "From AHK Require Import Model.Counters.", "Import ListNotations.",
+            "Definition d2n (d : dir) : nat := match d with C2A => 0 | A2C => 1 | EVT => 2 end.",
+            "Definition c2n (c : rclass) : nat := match c with ROk => 0 | RFail => 1 | RCancel => 2 | RCrash => 3 end.",
+            "Definition show_nid (x : nid) : list nat := [fst (fst x); d2n (snd (fst x)); snd x].",
+            "Definition show_logs (L : logs) := (flat_map show_nid (l_seal L), flat_map show_nid (l_wire L), "
+            "flat_map (fun o : nid * bool => show_nid (fst o) ++ [if snd o then 1 else 0]) (l_open L), flat_map show_nid (l_acc L), "
+            "flat_map (fun o : nat * nat * rclass => [fst (fst o); snd (fst o); c2n (snd o)]) (l_out L))."]
+    evals, big = [], set()
+    for req, _ in sample:
+        tr, *toks = req.split(" ")
+        evs = "[" + "; ".join(coq_event(t) for t in toks if t) + "]"
+        # a unary literal like 2049 costs ~0.3 s per occurrence: name each distinct large number once
+        evs = re.sub(r"\b(\d{3,})\b", lambda m: big.add(int(m.group(1))) or "k" + m.group(1), evs)
+        evals.append(f"Eval vm_compute in (show_logs ({XCHECK_RUN[tr]} {evs}))).")
+    body += [f"Definition k{n} : nat := Eval vm_compute in {n}." for n in sorted(big)] + evals
+    out = coq_eval(ctx["verif"], "C06", "crosscheck", "\n".join(body) + "\n", timeout=300)
+    blocks = out.split("= ")[1:]
+    bad = abs(len(sample) - len(blocks))
+    for blk, (req, ans) in zip(blocks, sample):
+        lists = [[int(x) for x in re.findall(r"\d+", l)] for l in re.findall(r"\[([^\]]*)\]", blk.split(":")[0])]
+        want = xcheck_answer(ans)
+        if want is None or len(lists) != 5:
+            bad += 1
+            continue
+        # the driver prints the out log sorted by request number
+        outs = sorted((lists[4][i:i + 3] for i in range(0, len(lists[4]), 3)), key=lambda o: o[1])
+        lists[4] = [x for o in outs for x in o]
+        if lists != want:
+            bad += 1
+    return len(blocks), bad
 
 
 # --------------------------------------------------------------------------- run
@@ -1194,12 +1406,14 @@ def run(ctx):
     n_rand = 1500 if tier == "quick" else 12000
     counts = {}
     mismatches = 0
+    xsample = []
     for transport in ("ip", "ble", "coap"):
         hists = list(exhaustive(ALPHA[transport], full_depth))
         n_full = len(hists)
         hists += [list(t) for t in itertools.product(CORE[transport], repeat=core_depth)]
         if transport == "coap":
             hists += [list(t) for t in itertools.product(COAP_EVT, repeat=core_depth)]
+            hists += list(exhaustive(COAP_SUBS, core_depth))
         if transport == "ip":
             hists += list(exhaustive(IP_SEG, full_depth))
         if transport == "ble":
@@ -1209,6 +1423,7 @@ def run(ctx):
         hists += random_histories(transport, rng(seed, "c06" + transport), n_rand, 60)
         model = drv.batch([transport + " " + " ".join(model_tokens(h)) for h in hists])
         impl = impl_batch(transport, hists, workers)
+        xsample += xcheck_pick(transport, hists, model, n_full + n_core)
         counts[transport] = dict(exhaustive_full_alphabet=n_full, exhaustive_core_alphabet=n_core,
                                  directed=len(DIRECTED[transport]), random=n_rand)
         for idx, (h, m, (canon, bad, meta)) in enumerate(zip(hists, model, impl)):
@@ -1250,14 +1465,21 @@ def run(ctx):
                 v["payload"]["model"] = drv.batch([tr + " " + " ".join(model_tokens(small))])[0]
                 v["what"] = v["what"].split("; history ")[0] + "; history " + " ".join(small)
         out.append(v)
+    if not ctx.get("replay"):
+        n_x, bad_x = vm_crosscheck(ctx, xsample)
+        cov.extra["vm_compute_crosscheck"] = dict(requests=n_x, disagreements=bad_x)
+        if bad_x:
+            out.append(violation("extraction-vs-vm_compute", f"{bad_x} of {n_x} sampled requests: extracted driver and vm_compute disagree",
+                                 False, broken="extraction / ocaml driver glue"))
     cov.extra["exhaustive"] = True
     cov.extra["exhaustive_part"] = (
         "per transport: every history of length <= %d over its 12-symbol alphabet %s; every history of length %d over the "
         "7-symbol core %s; CoAP additionally every history of length %d over the event alphabet %s; IP additionally every "
         "history of length <= %d over the read-segmentation alphabet %s (a+b@c = frames glued into one TCP read that ends c "
         "bytes into the last frame, remainder in a second read); BLE additionally every history of length <= %d over the GATT "
-        "fault alphabet %s (W/V n.cont.j = write of fragment j refused with the link up / dropping, TB/T/D read faults)"
-        % (full_depth, ALPHA, core_depth, CORE, core_depth, COAP_EVT, full_depth, IP_SEG, full_depth, BLE_FAULT))
+        "fault alphabet %s (W/V n.cont.j = write of fragment j refused with the link up / dropping, TB/T/D read faults); CoAP "
+        "additionally every history of length <= %d over the subscription alphabet %s (real CoAPPairing.subscribe/unsubscribe on one session)"
+        % (full_depth, ALPHA, core_depth, CORE, core_depth, COAP_EVT, full_depth, IP_SEG, full_depth, BLE_FAULT, core_depth, COAP_SUBS))
     cov.extra["case_counts"] = counts
     cov.extra["disagreements_checked"] = mismatches
     cov.extra["compared"] = "seal log, wire log, open attempts (nonce, success), accepted frame identities, per-request outcome class"
